@@ -212,6 +212,36 @@ def _process_item(kind, head, sub, meta, occ=None):
                 raise ExtractError(f"{what}: rewrite pattern `{t[0]}` found {got} times, expected {want}")
             text = text.replace(t[0], t[1])
             rec["rewrites"].append(f"`{t[0]}` => `{t[1]}` x{want}")
+    # 1b. `//@strslice NAME string|str`: every byte-range slice `NAME[a..b]` / `&NAME[a..]` / `NAME[..b]` of that text variable is
+    # read as a call of the slicing shim (units/std_text.rs), whose precondition is that the offsets are char boundaries.  Applied to
+    # whatever slices the current text has (zero or more), so that a NEW slice on the variable is decided, not a compile error.
+    for (d, tail, lines) in sub:
+        if d != "strslice":
+            continue
+        p2 = tail.split()
+        name, ty = p2[0], (p2[1] if len(p2) > 1 else "str")
+        arg = name if ty == "str" else name + ".as_str()"
+        pat = re.compile(r"&?\s*\b" + re.escape(name) + r"\[([^\[\]]*?)\.\.(=?)([^\[\]]*?)\]")
+        tm0 = R.mask(text)
+        out, last, cnt = [], 0, 0
+        for mm in pat.finditer(tm0):
+            lo, incl, hi = text[mm.start(1):mm.end(1)].strip(), mm.group(2), text[mm.start(3):mm.end(3)].strip()
+            if incl:
+                hi = f"({hi}) + 1"
+            if lo and hi:
+                call = f"text_slice({arg}, {lo}, {hi})"
+            elif lo:
+                call = f"text_slice_from({arg}, {lo})"
+            elif hi:
+                call = f"text_slice_to({arg}, {hi})"
+            else:
+                continue
+            out.append(text[last:mm.start()] + call)
+            last = mm.end()
+            cnt += 1
+        if cnt:
+            text = "".join(out) + text[last:]
+            rec["rewrites"].append(f"strslice {name}: {cnt} byte-range slice(s) => text_slice*(..) shim calls")
     # 2. locate inserts in the rewritten text
     tm = R.mask(text)
     if kind == "fn":
@@ -261,7 +291,7 @@ def _process_item(kind, head, sub, meta, occ=None):
             if mm.group(1) == "after":
                 pos += len(t[0])
             inserts.append((pos, order, "\n" + ghost + "\n", f"{mm.group(1)} `{t[0]}`"))
-        elif d.startswith("rewrite"):
+        elif d.startswith("rewrite") or d == "strslice":
             pass
         else:
             raise ExtractError(f"{what}: unknown sub-directive {d}")
